@@ -12,6 +12,7 @@ extract a byte class, an escape table or an option dispatch from the code,
 independently of whether the source spells it as `match`, `||`, `contains` on a
 static or a lookup table.
 """
+import re
 from . import facts as F
 
 
@@ -1386,6 +1387,21 @@ class Sim:
             if isinstance(s, Bytes) and isinstance(x, int):
                 return ("value", int(x in s.b))
             return ("value", UNK)
+        mnum = re.match(r"core::num::<impl (u8|u16|u32|u64|u128|usize|i8|i16|i32|i64|i128|isize)>::(\w+)$", p)
+        if mnum and d and isinstance(d[0], int) and mnum.group(2) in ("trailing_zeros", "leading_zeros", "count_ones",
+                                                                         "count_zeros", "is_power_of_two"):
+            ty, m = mnum.group(1), mnum.group(2)
+            bits = INT_BITS[ty]
+            x = d[0] & ((1 << bits) - 1)
+            if m == "trailing_zeros":
+                return ("value", bits if x == 0 else (x & -x).bit_length() - 1)
+            if m == "leading_zeros":
+                return ("value", bits - x.bit_length())
+            if m == "count_ones":
+                return ("value", bin(x).count("1"))
+            if m == "count_zeros":
+                return ("value", bits - bin(x).count("1"))
+            return ("value", int(x != 0 and x & (x - 1) == 0))
         if p.startswith("core::num::<impl u8>::") or p.startswith("std::char::methods::<impl char>::") \
                 or p.startswith("core::char::methods::<impl char>::"):
             m = p.rsplit("::", 1)[1]
@@ -1437,6 +1453,8 @@ class Sim:
             return ("value", UNK)
         if has("std::convert::From::from", "std::convert::Into::into"):
             a = d[0] if d else UNK
+            if len(substs) >= 2 and substs[0] == substs[1] and args:
+                return ("value", args[0])      # the reflexive `impl<T> From<T> for T`
             if isinstance(a, Rng) and len(substs) >= 2 and substs[0] in INT_BITS and substs[1] in INT_BITS:
                 return ("value", a)      # lossless widening keeps the quantity
             if isinstance(a, int) and len(substs) >= 2 and substs[0] in INT_BITS and substs[1] in INT_BITS:
